@@ -213,7 +213,7 @@ def zoo_check(n, tier, seed):
             return 2
     # 4. coverage-guided fuzzing (thorough)
     if tier == "thorough" and not R.violations:
-        rcode = fuzz_campaign(n, R, seed, cfg, secs=int(os.environ.get("VF_FUZZ_SECS", "90")))
+        rcode = fuzz_campaign(n, R, seed, cfg, secs=int(os.environ.get("VF_FUZZ_SECS", "240")))
         if rcode == 2:
             return 2
     import vfextra
